@@ -51,6 +51,13 @@ class FlatLine(Job):
         S.tol = V.float("tol", lo=0)
         return S
 
+    def offgrid_pins(self, S):
+        """tolerance far below grid G.  Sound for the unchanged code: window maxima / minima of grid values are grid values, their
+        difference is exact in binary64 (both on a 2^-10 grid, magnitude <= 2^21), and `range < tolerance` compares two floats
+        exactly - so binary64 and the reals agree for ANY float tolerance."""
+        from fractions import Fraction
+        return [("tolerance = 2^-60", {S.tol.v: Fraction(1, 2 ** 60)}), ("tolerance = 2^-40", {S.tol.v: Fraction(1, 2 ** 40)})]
+
     def invoke(self, mods, S, K):
         t = K.tarray(S.t) if self.tcarrier == "datetime64" else K.epoch_array(S.t)
         return mods.qartod.flat_line_test(K.farray(S.x), t, suspect_threshold=S.st, fail_threshold=S.ft, tolerance=S.tol)
